@@ -53,7 +53,7 @@ def main() -> int:
     for ci in range(len(chunks)):
         pp = ck.work / ("obs_%d.json" % ci)
         core.write_json(pp, [{k: o[k] for k in ("m", "inst", "outcome", "errors", "py_outcome", "py_errors")} for o in chunks[ci]])
-        res = ck.tlc("VerifTrace", what="V: verify(instance) = {(path, description) : invariant false}; raises only if an invariant raises", env={"VERIF_MODELS": str(models_p), "VERIF_OBS": str(pp)}, cont=True, workers=8, timeout=3000)
+        res = ck.tlc("VerifTrace", what="V: verify(instance) = {(path, description) : invariant false}; raises only if an invariant raises", env={"VERIF_MODELS": str(models_p), "VERIF_OBS": str(pp)}, cont=True, workers=4, timeout=3000)
         if res.distinct != 2 * len(chunks[ci]):
             raise core.MachineryFailure("TLC consumed %d of %d observations" % (res.distinct // 2, len(chunks[ci])))
         for v in step_violations(res.stdout):
@@ -79,7 +79,7 @@ def main() -> int:
     if fobs:
         fp = ck.work / "fobs.json"
         core.write_json(fp, fobs)
-        res = ck.tlc("VerifFnTrace", what="V: generated pattern/transpilable functions = FullMatch / Eval(body)", env={"VERIF_MODELS": str(models_p), "VERIF_OBS": str(fp)}, cont=True, workers=8, timeout=3000)
+        res = ck.tlc("VerifFnTrace", what="V: generated pattern/transpilable functions = FullMatch / Eval(body)", env={"VERIF_MODELS": str(models_p), "VERIF_OBS": str(fp)}, cont=True, workers=4, timeout=3000)
         if res.distinct != 2 * len(fobs):
             raise core.MachineryFailure("TLC consumed %d of %d function observations" % (res.distinct // 2, len(fobs)))
         for v in step_violations(res.stdout):
